@@ -99,7 +99,7 @@ type ctree struct {
 	td     []*big.Int     // real total difficulty relative to the trunk base (free blocks)
 }
 
-var tamperKinds = []string{"subst", "reorder", "payload", "sig", "dupdrop"}
+var tamperKinds = []string{"subst", "reorder", "payload", "sig", "dupdrop", "blocksig"}
 var badKinds = []string{"state", "txroot", "time", "drop", "add", "duptail"}
 
 func (w *world) id(ct *ctree, hash []byte) int {
@@ -240,6 +240,9 @@ func (w *world) build(ts treeSpec, conc int64, forceT, forceB string) (*ctree, e
 		default:
 			return nil, fmt.Errorf("unknown block kind %q", ts.Kind[b-1])
 		}
+		// signed by its producer (the signature is not covered by the hash); trunk blocks carry none
+		w.f.SignBlock(blk)
+		w.f.SignBlock(v)
 		ct.blocks[b] = blk
 		ct.hash[b] = blk.Hash(cfg)
 		if ts.Kind[b-1] != "ok" && bytes.Equal(ct.hash[b], v.Hash(cfg)) {
@@ -272,6 +275,9 @@ func (w *world) build(ts treeSpec, conc int64, forceT, forceB string) (*ctree, e
 				tx.Signature.Signature[len(tx.Signature.Signature)-2] ^= 0x10
 			case "dupdrop":
 				t.Txs[1] = types.Clone(t.Txs[0]).(*types.Transaction)
+			case "blocksig":
+				// genuine transactions, block signature that does not verify
+				t.Signature.Signature = w.f.Priv.Sign([]byte("something else")).Bytes()
 			default:
 				return nil, fmt.Errorf("unknown tamper kind %q", k)
 			}
@@ -359,12 +365,14 @@ func (ct *ctree) variantOf(b int, d *types.BlockDetail) string {
 	if d == nil || d.Block == nil {
 		return "none"
 	}
-	enc := func(txs []*types.Transaction) []byte { return types.Encode(&types.Transactions{Txs: txs}) }
-	got := enc(d.Block.Txs)
-	if bytes.Equal(got, enc(ct.blocks[b].Txs)) {
+	enc := func(blk *types.Block) []byte {
+		return append(types.Encode(&types.Transactions{Txs: blk.Txs}), types.Encode(blk.Signature)...)
+	}
+	got := enc(d.Block)
+	if bytes.Equal(got, enc(ct.blocks[b])) {
 		return "g"
 	}
-	if ct.tamp[b] != nil && bytes.Equal(got, enc(ct.tamp[b].Txs)) {
+	if ct.tamp[b] != nil && bytes.Equal(got, enc(ct.tamp[b])) {
 		return "t"
 	}
 	return "?" + common.ToHex(common.Sha256(got))[:10]
